@@ -72,7 +72,7 @@ def step (useSpec : Bool) (st : St) : Op → St × String
   | .append k v => ({ st with sp := append st.sp k v }, "-")
   | .del k v => ({ st with sp := if useSpec then deleteSpec st.sp k v else delete st.sp k v }, "-")
   | .set k v => ({ st with sp := if useSpec then setSpec st.sp k v else set st.sp k v }, "-")
-  | .sort => ({ st with sp := if useSpec then st.sp.mergeSort (fun a b => !ltBytes b.name a.name) else sort st.sp }, "-")
+  | .sort => ({ st with sp := if useSpec then st.sp.mergeSort (fun a b => !ltName b.name a.name) else sort st.sp }, "-")
   | .get k => (st, match get st.sp k with | none => "n" | some v => "v" ++ out v)
   | .getAll k => (st, "l" ++ ",".intercalate ((getAll st.sp k).map out))
   | .has k v => (st, if has st.sp k v then "t" else "f")
